@@ -65,7 +65,7 @@ def tdvp_case(draw):
     c = {'dims': dims, 'ranks': ranks, 'rank_class': rk if (ranks != mr or rk in ('product', 'maximal_tiny')) else 'maximal', 'cplx': draw(st.booleans()), 'seed': draw(gen.SEED),
          'h': draw(st.sampled_from([0.05, 0.1, 0.25, 0.5])), 'steps': draw(st.integers(1, 3)),
          'method': draw(st.sampled_from(['tdvp1site', 'tdvp1site', 'tdvp2site', 'tdvp'])),
-         'threshold': draw(st.sampled_from([None, None, 0, 1e-12, 1e-8])), 'max_rank': draw(st.sampled_from([None, None, 50, 2, 3])),
+         'threshold': draw(st.sampled_from([None, None, 0, 1e-12, 1e-8])), 'max_rank': draw(st.sampled_from([None, None, 50, 2, 3, 'inf', 'inf'])),
          'normalize': draw(st.sampled_from([0, 0, 2]))}
     return c
 
@@ -105,7 +105,7 @@ def body_tdvp(c):
         if c['threshold'] is not None:
             kw['threshold'] = c['threshold']
         if c['max_rank'] is not None:
-            kw['max_rank'] = c['max_rank']
+            kw['max_rank'] = np.inf if c['max_rank'] == 'inf' else c['max_rank']         # ("no cap" written out)
     if c.get('normalize', 0):
         kw['normalize'] = c['normalize']        # unitary dynamics of a unit vector: the 2-norm normalisation must be a no-op
     sol = getattr(ode, m)(op, x0, c['h'], c['steps'], **kw)
